@@ -166,7 +166,10 @@ EXTRA["C09"] = {
             ":resume / :skip / :abort / :replace arms or a new evaluation through the real eval_toplevel_exprs_then_stop - "
             "runs the real eval loop (frame exit, restore_stack_frame, pop_to_toplevel) with eval_expr replaced by a stub "
             "that pops its operands, fails or completes; z3 decides that the state afterwards is balanced again and no "
-            "pop finds an empty stack, so by induction no request sequence of any length reaches a missing operand.",
+            "pop finds an empty stack, so by induction no request sequence of any length reaches a missing operand. Part C: a "
+            "suspended `uv = <rhs>` / `uv += <rhs>` (failed right-hand side pending above it) followed by `:forget_local uv` "
+            "or nothing, then :skip / :replace 42 / :resume, then :resume, through the real request arms and the real "
+            "Bindings operations: no panic, one Response each.",
     "note": "Part B abstracts each pending entry to (operands popped, value_is_used) and assumes failing steps restore "
             "exactly what they popped (C07); a broken step is reported only when a continuation found by the same engine "
             "kills a real session on a library of 11 stopped programs. "
